@@ -331,6 +331,13 @@ func sizeOf(b *types.Basic) int {
 // CondCons converts a branch condition known to be `truth` into constraints (nil when it is not a linear
 // comparison of integers or lengths).
 func (f *Fn) CondCons(cond ssa.Value, truth bool) []Cons {
+	for {
+		u, isNot := cond.(*ssa.UnOp)
+		if !isNot || u.Op != token.NOT {
+			break
+		}
+		cond, truth = u.X, !truth
+	}
 	op, x, y, ok := ssax.CmpOp(cond)
 	if !ok {
 		return nil
